@@ -21,15 +21,38 @@ from . import worlds                                        # noqa: E402
 GROUPS = {'quick': 16, 'thorough': 64}
 
 
-def worker_env(hashseed, repo):
-    env = dict(os.environ)
+def worker_env(hashseed, repo, mode='normal'):
+    """The complete environment of a worker: built from scratch, so that a worker's start-up (and with it the layout of
+    its heap) does not depend on what the caller happens to have exported.  `mode` has a fixed width for the same reason."""
+    env = {k: os.environ[k] for k in ('PATH', 'HOME', 'LD_LIBRARY_PATH', 'TMPDIR') if k in os.environ}
     env.update({
-        'PYTHONHASHSEED': str(hashseed), 'OMP_NUM_THREADS': '1',
+        'LANG': 'C.UTF-8', 'PYTHONHASHSEED': str(hashseed), 'OMP_NUM_THREADS': '1',
         'OPENBLAS_NUM_THREADS': '1', 'MKL_NUM_THREADS': '1', 'MPLBACKEND': 'Agg',
         'PYTHONWARNINGS': 'default', 'TZ': 'UTC', 'PYTHONDONTWRITEBYTECODE': '1',
         'SIMLAB_REPO': repo, 'PYTHONPATH': HERE, 'PYTHONUNBUFFERED': '1', 'PYTHONUTF8': '1',
+        'SIMLAB_MODE': {'normal': 'normal', 'nomin': 'nomin '}[mode],
     })
     return env
+
+
+def _no_aslr():
+    """Command prefix that switches address-space randomisation off for a worker (object addresses, hence id()-keyed
+    behaviour, then repeat from process to process); empty when setarch is not available."""
+    global _NO_ASLR
+    if _NO_ASLR is None:
+        _NO_ASLR = []
+        exe = shutil.which('setarch')
+        if exe:
+            try:
+                arch = os.uname().machine
+                if subprocess.run([exe, arch, '-R', 'true'], capture_output=True, timeout=20).returncode == 0:
+                    _NO_ASLR = [exe, arch, '-R']
+            except Exception:
+                _NO_ASLR = []
+    return _NO_ASLR
+
+
+_NO_ASLR = None
 
 
 def hashseed_for(batch_seed, group):
@@ -61,13 +84,47 @@ def excluded_for(prop):
     return sorted(set(e['trigger'] for e in load_known(prop) if e['status'] == 'known' and e.get('trigger')))
 
 
+def _run_seed_prefix(doc, repo, timeout=1800):
+    """Execute a seed-prefix replay: the very batch job that failed, same arguments, same argument file, same worker
+    environment, ASLR off - only the mode flag (same width) tells the worker not to minimise."""
+    args = doc['batch_args']
+    d = args['out_dir']
+    os.makedirs(os.path.join(d, 'logs'), exist_ok=True)
+    apath = os.path.join(d, 'logs', 'job%03d.json' % args['group'])
+    lpath = os.path.join(d, 'logs', 'job%03d.log' % args['group'])
+    with open(apath, 'w') as f:
+        json.dump(args, f)
+    try:
+        p = subprocess.run(_no_aslr() + [PY, '-m', 'simlab.worker', 'batch', apath],
+                           env=worker_env(doc['hashseed'], repo, 'nomin'), cwd=HERE,
+                           stdout=open(lpath, 'w'), stderr=subprocess.STDOUT, timeout=timeout)
+    except subprocess.TimeoutExpired:
+        return {'harness_error': 'seed-prefix replay timed out'}
+    out = parse_result(lpath)
+    if out is None:
+        with open(lpath) as f:
+            return {'harness_error': 'seed-prefix replay worker exit %s: %s' % (p.returncode, f.read()[-1500:])}
+    v = out.get('violation')
+    if not v:
+        he = out.get('harness_error')
+        return {'violation': None, 'harness_error': json.dumps(he)[:1500] if he else None, 'event_digest': None,
+                'n_steps': out.get('steps', 0), 'failed_run_seed': None}
+    with open(v['replay']) as f:
+        got = json.load(f)
+    return {'violation': dict(got['expect'], invariant=got['invariant']), 'harness_error': None,
+            'event_digest': got['expect']['event_digest'], 'n_steps': out.get('steps', 0),
+            'failed_run_seed': got['run_seed']}
+
+
 def fresh_replay(path, repo, timeout=600):
     with open(path) as f:
         doc = json.load(f)
+    if doc.get('kind') == 'seed-prefix':
+        return doc, _run_seed_prefix(doc, repo)
     log = tempfile.NamedTemporaryFile('w+', suffix='.log', delete=False, dir=OUT)
     log.close()
     try:
-        p = subprocess.run([PY, '-m', 'simlab.worker', 'replay', path],
+        p = subprocess.run(_no_aslr() + [PY, '-m', 'simlab.worker', 'replay', path],
                            env=worker_env(doc['hashseed'], repo), cwd=HERE,
                            stdout=open(log.name, 'w'), stderr=subprocess.STDOUT,
                            timeout=timeout)
@@ -140,14 +197,17 @@ def fresh_minimise(doc, repo, budget_s=240):
     return new
 
 
-def _ddmin_fresh(items, fails, t_end):
+WALL_FOR = {}
+
+
+def _ddmin_fresh(items, fails, t_end, parallel=8):
     """ddmin over a list; `fails(candidate)` runs in a fresh interpreter; candidates of one round run in parallel."""
     from concurrent.futures import ThreadPoolExecutor
     chunk = max(1, len(items) // 2)
     while items and chunk >= 1 and time.monotonic() < t_end:
         cands = [(i, items[:i] + items[i + chunk:]) for i in range(0, len(items), chunk)]
         hit = None
-        with ThreadPoolExecutor(max_workers=8) as ex:
+        with ThreadPoolExecutor(max_workers=parallel) as ex:
             futs = [(c, ex.submit(fails, c, 'p%d' % i)) for i, c in cands]
             for c, fu in futs:
                 if hit is None and fu.result():
@@ -214,6 +274,83 @@ def prefix_chance(prop, tier, batch_seed, n_runs, run_seed, out_dir, excluded, r
                 prelude_runs=len(doc['prelude']))
 
 
+def _fresh_doc_fails(doc, repo, tag):
+    """Replay a complete candidate document in a fresh interpreter; True iff the expected invariant fails in the
+    expected run."""
+    path = os.path.join(OUT, 'cand-%s-%d.json' % (tag, os.getpid()))
+    with open(path, 'w') as f:
+        json.dump(doc, f)
+    try:
+        _, res = fresh_replay(path, repo, timeout=1800)
+    finally:
+        try:
+            os.unlink(path)
+        except OSError:
+            pass
+    v = res.get('violation')
+    ok = bool(v and not res.get('harness_error') and v['invariant'] == doc['expect']['invariant'] and
+              res.get('failed_run_seed', doc['run_seed']) == doc['run_seed'])
+    return ok, res
+
+
+def seed_prefix_chance(prop, tier, batch_seed, n_runs, run_seed, out_dir, excluded, repo, budget_s=240):
+    """Last resort for a violation that depends on the exact state of the interpreter (object addresses reused after
+    garbage collection, caches keyed on id()): even recording the earlier runs perturbs it.  The batch job that failed is
+    executed again exactly - same arguments, same argument file, same environment, ASLR off; a mode flag of the same
+    width tells the worker to stop at the violation without minimising - and the replay file is that job: the list of
+    run seeds is the schedule.  It must fail again twice; the list is then shortened by ddmin where that still fails."""
+    jobs = make_jobs(prop, tier, batch_seed, n_runs, out_dir, WALL_FOR.get((prop, tier), 600), excluded)
+    job = None
+    for g, hs, args in jobs:
+        if run_seed in [sd for _, sd in args['runs']]:
+            job = (g, hs, args)
+            break
+    if job is None:
+        return None
+    g, hs, args = job
+    doc0 = {'kind': 'seed-prefix', 'property': prop, 'hashseed': hs, 'batch_args': json.loads(json.dumps(args)),
+            'run_seed': run_seed}
+    r = _run_seed_prefix(doc0, repo)
+    v = r.get('violation')
+    if not v or r.get('failed_run_seed') != run_seed:
+        return None
+    path = os.path.join(args['out_dir'], '%d.json' % run_seed)
+    with open(path) as f:
+        doc = json.load(f)
+    ok, r2 = _fresh_doc_fails(doc, repo, 's2')        # exactly repeatable, or it is not reported
+    if not ok or r2['event_digest'] != doc['expect']['event_digest']:
+        return None
+    t_end = time.monotonic() + budget_s
+    k = [sd for _, sd in doc['batch_args']['runs']].index(run_seed)
+    runs = doc['batch_args']['runs'][:k + 1]
+    head, last = runs[:-1], runs[-1]
+
+    def fails(c, tag):
+        cand = dict(doc, batch_args=dict(doc['batch_args'], runs=c + [last]))
+        return _fresh_doc_fails(cand, repo, tag)[0]
+    if fails(head, 'h'):
+        head = _ddmin_fresh(list(head), fails, t_end, parallel=1)
+        doc = dict(doc, batch_args=dict(doc['batch_args'], runs=head + [last]))
+    ok, r3 = _fresh_doc_fails(doc, repo, 'sf')
+    if not ok:
+        with open(path) as f:
+            doc = json.load(f)                        # fall back to the unshortened job
+        ok, r3 = _fresh_doc_fails(doc, repo, 'sg')
+        if not ok:
+            return None
+    doc['runs'] = doc['batch_args']['runs'][:[sd for _, sd in doc['batch_args']['runs']].index(run_seed) + 1]
+    doc['minimised_in'] = ('fresh interpreters; the failure depends on interpreter state (object identities) built up by the %d '
+                           'earlier run(s) of its worker: the replay is the batch job itself, the list of run seeds executed in '
+                           'order in one process' % (len(doc['runs']) - 1))
+    doc['expect'] = {'invariant': r3['violation']['invariant'], 'step': r3['violation']['step'],
+                     'message': r3['violation']['message'], 'event_digest': r3['event_digest']}
+    with open(path, 'w') as f:
+        json.dump(doc, f, indent=1)
+    return {'run_seed': run_seed, 'replay': path, 'invariant': doc['invariant'], 'message': doc['expect']['message'],
+            'original_len': doc['original_len'], 'minimised_len': doc['minimised_len'],
+            'prelude_runs': len(doc['runs']) - 1, 'seed_prefix': True}
+
+
 def run_jobs(jobs, ncpu, repo, wall_s, stop_on_violation=True):
     """jobs: list of (group, hashseed, args-dict).  Returns (results, errors)."""
     pending = list(jobs)
@@ -224,14 +361,15 @@ def run_jobs(jobs, ncpu, repo, wall_s, stop_on_violation=True):
     while pending or running:
         while pending and len(running) < ncpu and not stop:
             group, hashseed, args = pending.pop(0)
+            mode = args.pop('_mode', 'normal') if isinstance(args, dict) else 'normal'
             d = args['out_dir']
             os.makedirs(os.path.join(d, 'logs'), exist_ok=True)
             apath = os.path.join(d, 'logs', 'job%03d.json' % group)
             lpath = os.path.join(d, 'logs', 'job%03d.log' % group)
             with open(apath, 'w') as f:
                 json.dump(args, f)
-            p = subprocess.Popen([PY, '-m', 'simlab.worker', 'batch', apath],
-                                 env=worker_env(hashseed, repo), cwd=HERE,
+            p = subprocess.Popen(_no_aslr() + [PY, '-m', 'simlab.worker', 'batch', apath],
+                                 env=worker_env(hashseed, repo, mode), cwd=HERE,
                                  stdout=open(lpath, 'w'), stderr=subprocess.STDOUT)
             running.append((p, group, lpath))
         if stop:
@@ -474,6 +612,9 @@ def cmd_check(prop, tier, repo, batch_seed, runs=None, quiet=False, wall=None, o
                 ok = True
         if not ok and only_seed is None:
             v3 = prefix_chance(prop, tier, batch_seed, n_runs, run_seed, out_dir, excluded, repo)
+            if v3 is None:
+                WALL_FOR[(prop, tier)] = wall_s
+                v3 = seed_prefix_chance(prop, tier, batch_seed, n_runs, run_seed, out_dir, excluded, repo)
             if v3 is not None:
                 if v3['invariant'] not in set(x['invariant'] for x in verified):
                     verified.append(v3)
